@@ -115,6 +115,9 @@ def _eval_scan(case):
         line = sc.scan_line("scan", base, tree, root, mp, ex)
         # the same exclusion with external libraries included: an excluded file must still contribute nothing
         filtered_ext = sc.real_scan(proj, root, mp, **sc.kw_for(ex, False, None, ("R", ()))) if case.get("with_externals") else None
+        # ... and the file patterns concern files and directories: the external modules imported by the remaining modules are
+        # those of the scan without any pattern (externals included)
+        plain_ext = sc.real_scan(proj, root, mp, **sc.kw_for(none, False, None, ("R", ()))) if case.get("with_externals") else None
         # regex_exclusions given WITHOUT exclusions=(): the glob exclusions keep their default, the call is either refused
         # (ImproperlyConfigured: both kinds given) or honours the regexes - it must never silently ignore them
         bare = None
@@ -126,7 +129,7 @@ def _eval_scan(case):
             path_str = base + "".join("/" + c for c in p.split("/")[1:])
             if any(sc.glob_spec(g, path_str) for g in pats):
                 matched.append(p)
-    return filtered, plain, line, matched, filtered_ext, bare
+    return filtered, plain, line, matched, filtered_ext, bare, plain_ext
 
 
 def _glob_to_regex(g):
@@ -139,7 +142,7 @@ def _glob_to_regex(g):
 def judge_scans(ctx, stream, cases):
     res = pmap(_eval_scan, cases, ctx.jobs, chunk=20)
     ans = run_driver([r[2] for r in res])
-    for case, (filtered, plain, line, matched, filtered_ext, bare), a in zip(cases, res, ans):
+    for case, (filtered, plain, line, matched, filtered_ext, bare, plain_ext), a in zip(cases, res, ans):
         a = parse_answer(a)
         stream.evaluations += 1
         F, P = sc.parse_snapshot(filtered), sc.parse_snapshot(plain)
@@ -198,6 +201,15 @@ def judge_scans(ctx, stream, cases):
                 if back or into:
                     bad = (f"with external libraries included an excluded file/directory contributes again: modules {sorted(back)[:5]}, "
                            f"imports {sorted(into)[:5]}")
+        if not bad and filtered_ext is not None and plain_ext is not None and survivors:
+            E_, PE = sc.parse_snapshot(filtered_ext), sc.parse_snapshot(plain_ext)
+            if E_ is not None and PE is not None:
+                internal = P[0]
+                want_ext = {(u, v) for (u, v) in PE[1] if v not in internal and u in survivors}
+                got_ext = {(u, v) for (u, v) in E_[1] if v not in internal}
+                if got_ext != want_ext:
+                    bad = (f"file exclusion patterns change the external part of the architecture: imports of external modules "
+                           f"{sorted(got_ext ^ want_ext)[:5]}")
         if not bad and bare is not None:
             stream.count("bare regex_exclusions call:" + ("refused" if bare.startswith("ERR") else "evaluated"))
             if bare != "ERR:improperlyConfigured" and bare != filtered:
@@ -234,10 +246,12 @@ def tree_stream(ctx: Ctx, s, n, rng):
         cases = []
         for _ in range(min(500, n - done)):
             tree = sc.gen_tree(rng, comps=META_COMPS)
-            sc.fill_sources(rng, tree, externals=False)
+            with_ext = rng.random() < 0.5
+            sc.fill_sources(rng, tree, externals=with_ext)
             dirs = sorted(p for p, v in tree.items() if v is None)
             cases.append({"tree": tree, "root": "proj", "mp": rng.choice(dirs) if rng.random() < 0.3 else "proj",
-                          "pats": exclusion_for(rng, tree), "regex": rng.random() < 0.4, "with_externals": rng.random() < 0.5,
+                          "pats": exclusion_for(rng, tree) + ([rng.choice(["*lib*", "*os", "*ext*", "*x", "*test*"])] if with_ext and rng.random() < 0.5 else []),
+                          "regex": rng.random() < 0.4, "with_externals": with_ext,
                           "flagged": rng.randrange(4) if rng.random() < 0.3 else None, "bare_regex_call": rng.random() < 0.3})
         judge_scans(ctx, s, cases)
         done += len(cases)
